@@ -361,8 +361,8 @@ async def _emit_run_end(
             span_id=span_id,
             parent_span_id=parent_span_id,
             graph_name=graph.name,
-            status="failed" if error else "completed",
-            error=str(error) if error else None,
+            status="failed" if error is not None else "completed",
+            error=str(error) if error is not None else None,
             duration_ms=duration_ms,
         )
     )
